@@ -364,6 +364,7 @@ func main() {
 		"arrival orders with a piece re-delivered before the threshold (panic or stuck lock inside AddWitnessSign = violation); several messages per group in one process (lengths 0..100, shared 32-byte suffix/prefix, zero-padded forms, shuffled and repeated): Sign = key*HashToPoint(msg) computed independently, share verifies for its own message only, recovered signature verifies under the group key; " +
 		"3-of-5 groups on the executable curve model (every delta_i*sig_i, the combination and gsk*H(m) recomputed by the model and compared with the returned bytes); " +
 		"share pieces through the node's sender over an in-memory network (delivered share matrix = dealer polynomial at the receiver's id; property on the resulting keys) and the king's parent-group piece collection with stale pieces for another hash in all small arrival orders; " +
+		"dealer determinism and dealer-restart schedules; the share-piece request path (OnMessageSharePieceReq) with candidates != members; " +
 		"several groups processed concurrently (own group per goroutine, every API result compared with its sequential reference; -race in the thorough tier) and the inventory of package-level state in groupsig/bn256; " +
 		"repeated members and repeated dealer pieces must be refused, RandomPerm/getRandomKSignInfo must return a k-subset, GetGroupK(n) = ceil(51n/100) for n < 3000; " +
 		"model cases: ShareSeckey/AggregateSeckeys scalars, recovery with arbitrary share scalars (map and ordered slices, ids congruent mod r, repeated id), DKG runs, per-member handleSharePiece runs, RandomPerm, GetGroupK, generator runs. " +
@@ -887,6 +888,13 @@ func main() {
 		}
 	}
 	parentSignFamily(rng, res, thorough)
+	dealerRestartFamily(rng, res)
+	for _, w := range [][2]int{{6, 5}, {4, 3}, {5, 5}} {
+		requestPathFamily(rng, res, cs, w[0], w[1])
+	}
+	if thorough {
+		requestPathFamily(rng, res, cs, 11, 10)
+	}
 
 	// ---- several groups processed concurrently; inventory of package-level state ----
 	concurrencyFamily(a, res)
